@@ -1,4 +1,4 @@
-import GixModel.Lemmas.C47TopoExplore
+import GixModel.Lemmas.C47TopoFinal
 /-
 C47 — Commit walks agree with git rev-list.  PROPERTY THEOREMS ONLY.
 
@@ -86,15 +86,140 @@ theorem simple_cutoff {g : Dag} {q : PQ Int} (hq : q.Lawful) (oldest : Bool) (se
     simp [SimpleCfg.ok, SimpleCfg.byTopology, okDate, Sorting.cutoffTime]
   rw [hok]
 
-/-- FULL statement for the `Topo` iterator (not yet proved — see the config's level_note): for every
-admissible request (first-parent walks only without hidden tips), every lawful queue pair whose
-generation queue is a max-queue, arbitrary commit times and monotone generation numbers, the walk
-ends regularly, returns exactly the commits of `git rev-list tips ^ends` (over the walked links),
-each once, and never a parent before one of its children. -/
-def C47_topo_full : Prop :=
-  ∀ (E : TopoEnv) (nodes tips ends : List Nat) (n : Nat), TCtx E nodes tips ends → nodes.length ≤ n →
+/-! ### Part 2: the `Topo` iterator (as repaired by the four `fix:` commits in /repo)
+
+For every admissible request — `TCtx`: finite, parent-closed, acyclic graph; duplicate-free parent
+lists; generation numbers that do not increase towards the parents (full, partial or no
+commit-graph); ARBITRARY commit times; any lawful queue implementations, the generation queue
+handing out a maximal generation first; any tips and ends (with repetitions and overlaps);
+first-parent walks only without ends (known finding) — and both sortings. -/
+
+theorem visible_iff {E : TopoEnv} {tips ends : List Nat} (x : Nat) :
+    (Rch E tips ends x ∧ ¬ Hid E ends x) ↔ ((∃ t, t ∈ tips ∧ Reach E.eg t x) ∧ ¬ Hid E ends x) := by
+  constructor
+  · intro ⟨⟨s, hs, hr⟩, hh⟩
+    refine ⟨?_, hh⟩
+    cases List.mem_append.mp hs with
+    | inl h => exact ⟨s, h, hr⟩
+    | inr h => exact absurd ⟨s, h, eg_reach_g E hr⟩ hh
+  · intro ⟨⟨t, ht, hr⟩, hh⟩
+    exact ⟨⟨t, List.mem_append_left _ ht, hr⟩, hh⟩
+
+/-- The walk ends regularly (no `Missing…Unexpected` error, fuel left) and returns each commit
+that is reachable from a tip over the walked links and not reachable from an end exactly once —
+and nothing else. -/
+theorem topo_exactly_once {E : TopoEnv} {nodes tips ends : List Nat} (ctx : TCtx E nodes tips ends)
+    {n : Nat} (hn : nodes.length ≤ n) :
     ∃ out, topoWalk E n tips ends = .ok out ∧ out.Nodup ∧
-      (∀ x, x ∈ out ↔ (∃ t, t ∈ tips ∧ Reach E.eg t x) ∧ ¬ Hid E ends x) ∧
-      TopoValid E.g E.cfg.firstParent out
+      ∀ x, x ∈ out ↔ (∃ t, t ∈ tips ∧ Reach E.eg t x) ∧ ¬ Hid E ends x := by
+  obtain ⟨out, h1, h2⟩ := topoWalk_spec ctx hn
+  refine ⟨out, h1, h2.nodup, ?_⟩
+  intro x
+  rw [h2.mem_iff, visible_iff]
+
+/-- With all parents walked this is the set of `git rev-list tips ^ends`. -/
+theorem topo_exactly_once_revlist {E : TopoEnv} {nodes tips ends : List Nat} (ctx : TCtx E nodes tips ends)
+    (hall : E.cfg.firstParent = false) {n : Nat} (hn : nodes.length ≤ n) :
+    ∃ out, topoWalk E n tips ends = .ok out ∧ out.Nodup ∧ ∀ x, x ∈ out ↔ RevList E.g tips ends x := by
+  obtain ⟨out, h1, h2, h3⟩ := topo_exactly_once ctx hn
+  refine ⟨out, h1, h2, ?_⟩
+  intro x
+  rw [h3]
+  have hwalk : ∀ c, walkParents E c = E.g.parents c := by
+    intro c; simp [walkParents, hall]
+  have hreach : ∀ a b, Reach E.eg a b ↔ Reach E.g a b := by
+    intro a b
+    constructor
+    · exact eg_reach_g E
+    · intro h
+      induction h with
+      | refl => exact Reach.refl _
+      | head hp _ ih =>
+        refine Reach.head ?_ ih
+        show _ ∈ walkParents E _
+        rw [hwalk]; exact hp
+  simp only [RevList, Spec.C47.Hidden, Hid, hreach]
+
+/-- Topological validity, for both sortings: among the returned commits no parent comes before
+one of its children (over the walked links). -/
+theorem topo_valid {E : TopoEnv} {nodes tips ends : List Nat} (ctx : TCtx E nodes tips ends)
+    {n : Nat} (hn : nodes.length ≤ n) {out : List Nat} (h : topoWalk E n tips ends = .ok out) :
+    TopoValid E.g E.cfg.firstParent out := by
+  obtain ⟨out', h1, h2⟩ := topoWalk_spec ctx hn
+  rw [h1] at h
+  cases h
+  intro c p hc hp hpc
+  obtain ⟨l₁, l₂, hl⟩ := List.append_of_mem hp
+  have hcr := ((h2.mem_iff c).mp hc).1
+  have hc1 := h2.order l₁ p l₂ hl c hcr hpc
+  obtain ⟨a, b, hab⟩ := List.append_of_mem hc1
+  exact ⟨a, b, l₂, by rw [hl, hab]⟩
+
+/-- The returned SET does not depend on the generation numbers (commit-graph present, partial or
+absent), the commit times, the queue implementations or the sorting: two walks over graphs with
+the same parent links return the same commits. -/
+theorem topo_graph_independent {E₁ E₂ : TopoEnv} {nodes tips ends : List Nat}
+    (hp : ∀ c, E₁.g.parents c = E₂.g.parents c) (hfp : E₁.cfg.firstParent = E₂.cfg.firstParent)
+    (ctx₁ : TCtx E₁ nodes tips ends) (ctx₂ : TCtx E₂ nodes tips ends) {n : Nat} (hn : nodes.length ≤ n) :
+    ∃ o₁ o₂, topoWalk E₁ n tips ends = .ok o₁ ∧ topoWalk E₂ n tips ends = .ok o₂ ∧ ∀ x, x ∈ o₁ ↔ x ∈ o₂ := by
+  obtain ⟨o₁, a1, _, a3⟩ := topo_exactly_once ctx₁ hn
+  obtain ⟨o₂, b1, _, b3⟩ := topo_exactly_once ctx₂ hn
+  refine ⟨o₁, o₂, a1, b1, ?_⟩
+  intro x
+  rw [a3, b3]
+  have hw : ∀ c, walkParents E₁ c = walkParents E₂ c := by
+    intro c; simp only [walkParents, hp, hfp]
+  have hr12 : ∀ a b, Reach E₁.eg a b → Reach E₂.eg a b := by
+    intro a b h
+    induction h with
+    | refl => exact Reach.refl _
+    | head hpar _ ih => exact Reach.head (by show _ ∈ walkParents E₂ _; rw [← hw]; exact hpar) ih
+  have hr21 : ∀ a b, Reach E₂.eg a b → Reach E₁.eg a b := by
+    intro a b h
+    induction h with
+    | refl => exact Reach.refl _
+    | head hpar _ ih => exact Reach.head (by show _ ∈ walkParents E₁ _; rw [hw]; exact hpar) ih
+  have hg12 : ∀ a b, Reach E₁.g a b → Reach E₂.g a b := by
+    intro a b h
+    induction h with
+    | refl => exact Reach.refl _
+    | head hpar _ ih => exact Reach.head (hp _ ▸ hpar) ih
+  have hg21 : ∀ a b, Reach E₂.g a b → Reach E₁.g a b := by
+    intro a b h
+    induction h with
+    | refl => exact Reach.refl _
+    | head hpar _ ih => exact Reach.head ((hp _).symm ▸ hpar) ih
+  constructor
+  · intro ⟨⟨t, ht, hr⟩, hh⟩
+    exact ⟨⟨t, ht, hr12 _ _ hr⟩, fun ⟨e, he, hre⟩ => hh ⟨e, he, hg21 _ _ hre⟩⟩
+  · intro ⟨⟨t, ht, hr⟩, hh⟩
+    exact ⟨⟨t, ht, hr21 _ _ hr⟩, fun ⟨e, he, hre⟩ => hh ⟨e, he, hg12 _ _ hre⟩⟩
+
+-- non-vacuity: a concrete request satisfying `TCtx` (criss-cross history, equal commit times, a
+-- hidden tip, the reference list queues) and what the model returns for it
+example : TCtx { g := C47.sampleDag, qg := selectPQ GenTime.le, qd := selectPQ DateKey.le,
+                 cfg := { sorting := .dateOrder, firstParent := false } } [0, 1, 2, 3, 4] [3, 4] [1] :=
+  C47.sample_ctx
+
+example : topoWalk { g := C47.sampleDag, qg := selectPQ GenTime.le, qd := selectPQ DateKey.le,
+                     cfg := { sorting := .dateOrder, firstParent := false } } 5 [3, 4] [1] = .ok [3, 4, 2] := by
+  decide +kernel
+
+/-- the date queue hands out a greatest key (commit time, then earliest insertion) first -/
+def DateMaxFirst (E : TopoEnv) : Prop :=
+  ∀ s e s', E.qd.pop s = some (e, s') → ∀ x, x ∈ E.qd.items s → DateKey.le x.1 e.1 = true
+
+/-- NOT PROVED (stated for the record, see the config's level_note): the SEQUENCE of a walk over
+all parents is the one git's sort produces — `Spec.C47.gitTopoOrder`, the executable transcription
+of `sort_in_topological_order` with git's queue disciplines, which the harness validates against
+the sequences the git binary prints (`gitorder` operations). In particular the sequence would not
+depend on the generation numbers (commit-graph present, partial or absent) nor on how the heaps
+break ties. What IS established for the sequences: the differential tie (model = real code on
+every generated walk) and the oracle (real code = `git rev-list --date-order` / `--topo-order`). -/
+def C47_order_full : Prop :=
+  ∀ (E : TopoEnv) (nodes tips ends : List Nat) (n : Nat),
+    TCtx E nodes tips ends → DateMaxFirst E → nodes = List.range n → E.cfg.firstParent = false →
+    topoWalk E n tips ends
+      = .ok (gitTopoOrder E.g n tips ends (E.cfg.sorting == TopoSorting.dateOrder))
 
 end GixModel.Props.C47
